@@ -1,5 +1,59 @@
-(* Property C12 — placeholder until the pair theorems land. *)
-From GJ Require Import Base Kernel KernelSpec KernelProofs IntersectsProofs.
-Theorem C12_segment_level_symmetry : forall s o, intersects_segment s o = intersects_segment o s.
+(* Property C12 — answers are invariant under symmetries and re-encodings.
+   PARTIAL: kernel-checked for the ring attributes, the segment kernels and
+   point membership (every predicate whose model is proved equal to its
+   specification); the invariances of ring-level contains/intersects are
+   checked metamorphically on every run (implementation and model). *)
+From Coq Require Import Sorting.Permutation.
+From GJ Require Import Base Kernel KernelSpec KernelProofs IntersectsProofs Series SeriesSpec SeriesProofs
+  Ring RingSpec PipProofs Invariance.
+Open Scope Z_scope.
+
+(* translation by (dx,dy) and scaling by k > 0 (k = 2^j in the property) *)
+Theorem C12_raycast_affine : forall k dx dy, 0 < k -> forall s p,
+  raycast (affs k dx dy s) (aff k dx dy p) = raycast s p.
+Proof. exact raycast_aff. Qed.
+Theorem C12_intersects_segment_affine : forall k dx dy, 0 < k -> forall s o,
+  intersects_segment (affs k dx dy s) (affs k dx dy o) = intersects_segment s o.
+Proof. exact intersects_segment_aff. Qed.
+Theorem C12_collinear_affine : forall k dx dy, 0 < k -> forall s p,
+  collinear_point (affs k dx dy s) (aff k dx dy p) = collinear_point s p.
+Proof. exact collinear_point_aff. Qed.
+Theorem C12_ring_membership_affine : forall k dx dy, 0 < k -> forall ps p allow,
+  rcp_hit (RS {| closed := true; pts := map (aff k dx dy) ps |}) (aff k dx dy p) allow
+  = rcp_hit (RS {| closed := true; pts := ps |}) p allow.
+Proof. exact ring_contains_point_aff. Qed.
+Theorem C12_polygon_membership_affine : forall k dx dy, 0 < k -> forall e hs p,
+  poly_contains_point {| exterior := RS {| closed := true; pts := map (aff k dx dy) e |};
+                         holes := map (fun h => RS {| closed := true; pts := h |}) (map (map (aff k dx dy)) hs) |} (aff k dx dy p)
+  = poly_contains_point {| exterior := RS {| closed := true; pts := e |};
+                           holes := map (fun h => RS {| closed := true; pts := h |}) hs |} p.
+Proof. exact poly_contains_point_aff. Qed.
+Theorem C12_line_membership_affine : forall k dx dy, 0 < k -> forall ps p,
+  line_contains_point {| closed := false; pts := map (aff k dx dy) ps |} (aff k dx dy p)
+  = line_contains_point {| closed := false; pts := ps |} p.
+Proof. exact line_contains_point_aff. Qed.
+Theorem C12_rect_membership_affine : forall k dx dy, 0 < k -> forall (r : rect) p,
+  rect_contains_point (aff k dx dy (fst r), aff k dx dy (snd r)) (aff k dx dy p) = rect_contains_point r p.
+Proof. exact rect_contains_point_aff. Qed.
+
+(* re-encodings: endpoint order of a segment, candidate order, start vertex, closing vertex *)
+Theorem C12_raycast_endpoint_order : forall a b p, raycast (a, b) p = raycast (b, a) p.
+Proof. exact raycast_sym. Qed.
+Theorem C12_intersects_operand_order : forall s o, intersects_segment s o = intersects_segment o s.
 Proof. exact intersects_segment_sym. Qed.
-Print Assumptions C12_segment_level_symmetry.
+Theorem C12_membership_candidate_order : forall allow p l l' inn,
+  Permutation l l' -> fst (pip_fold allow p l inn) = fst (pip_fold allow p l' inn).
+Proof. exact pip_fold_perm. Qed.
+Theorem C12_convex_start_vertex : forall k vs, convex_specb (rot k vs) = convex_specb vs.
+Proof. exact convex_rot. Qed.
+Theorem C12_clockwise_start_vertex : forall k vs, clockwise_specb (rot k vs) = clockwise_specb vs.
+Proof. exact clockwise_rot. Qed.
+Theorem C12_closing_vertex : forall vs, vs <> [] -> pt_eqb (last vs pt0) (hd pt0 vs) = false ->
+  ring_vertices (vs ++ [hd pt0 vs]) = vs /\ ring_vertices vs = vs.
+Proof. exact ring_vertices_closing. Qed.
+
+Print Assumptions C12_raycast_affine.
+Print Assumptions C12_intersects_segment_affine.
+Print Assumptions C12_polygon_membership_affine.
+Print Assumptions C12_membership_candidate_order.
+Print Assumptions C12_convex_start_vertex.
